@@ -231,3 +231,55 @@ pub fn same_fast(a: &Board, b: &Board) -> bool {
     }
     true
 }
+
+/// Build the same position through a *messy* builder history: random placement order, rejected
+/// duplicate placements (the error is ignored, as a caller might), wrong pieces placed and removed
+/// again, removals of empty squares, fields set twice.  The result must be indistinguishable from
+/// the clean routes.
+pub fn build_via_dirty_builder(p: &Position, rng: &mut refmodel::rng::Rng) -> Option<Result<Board, String>> {
+    if p.castle.iter().any(|x| *x) || p.half > 65535 || p.full > 65535 {
+        return None;
+    }
+    let mut b = Board::builder();
+    let mut squares: Vec<u8> = (0..64u8).filter(|s| p.board[*s as usize].is_some()).collect();
+    rng.shuffle(&mut squares);
+    let kinds = [Kind::P, Kind::N, Kind::B, Kind::R, Kind::Q, Kind::K];
+    b.turn(col(p.turn.flip()));
+    b.half_move_clock(rng.below(500) as u16);
+    for (i, s) in squares.iter().enumerate() {
+        let (c, k) = p.board[*s as usize].unwrap();
+        match rng.below(5) {
+            0 => {
+                // a wrong piece first, then remove it
+                let _ = b.place(pos(*s), col(c.flip()), kind(*rng.pick(&kinds)));
+                b.remove(pos(*s));
+            }
+            1 => {
+                // removing an empty square is a no-op
+                b.remove(pos(*s));
+            }
+            _ => {}
+        }
+        if b.place(pos(*s), col(c), kind(k)).is_err() {
+            return Some(Err("builder.place reported an empty square as occupied".into()));
+        }
+        // a rejected placement on an occupied square (error ignored by the caller)
+        if rng.chance(1, 3) {
+            let t = squares[rng.below(i as u64 + 1) as usize];
+            if b.place(pos(t), col(if rng.chance(1, 2) { Col::W } else { Col::B }), kind(*rng.pick(&kinds))).is_ok() {
+                return Some(Err("builder.place accepted an occupied square".into()));
+            }
+        }
+        if rng.chance(1, 6) {
+            // replace flow: remove and place the same piece again
+            b.remove(pos(*s));
+            let _ = b.place(pos(*s), col(c), kind(k));
+        }
+    }
+    b.enpassant(Some(chess_bitboard::File::from_u8(rng.below(8) as u8).unwrap()));
+    b.turn(col(p.turn));
+    b.half_move_clock(p.half as u16);
+    b.full_move_clock(p.full as u16);
+    b.enpassant(p.ep.map(|f| chess_bitboard::File::from_u8(f).unwrap()));
+    Some(b.build().map_err(|e| format!("{e:?}")))
+}
